@@ -46,7 +46,7 @@ def check(run):
     run.assumptions += [
         'attribute tags are drawn from the ABI-addenda / psABI tables only (unknown tags are outside the quantifier)',
         'every generated subsection carries public-format content (vendor names aeabi/riscv/gnu/x)',
-        'nested Tag_also_compatible_with values have no zero byte in their ULEB128 encoding',
+        'Tag_also_compatible_with payloads are decoded by the nested tag\'s kind (nested integer 0 and zero-final-byte encodings included)',
         '.ARM.exidx/.ARM.extab have sh_addr = sh_offset (place as address = place as file offset); e_type = ET_DYN',
         'prel31 results accepted modulo 2^32 or modulo 2^64',
         'eh_table_offset of table-based model 0 and generic entries: absent or the table offset',
